@@ -291,6 +291,12 @@ func (f *fileCursor) readData() (*DataBlockInfo, error) {
 		if f.seriesIter.iter.hasRemainData() {
 			orderRec := mergeData(f.memIter, f.seriesIter.iter, f.querySchema.Options().ChunkSizeNum(), f.ascending)
 			orderRec = orderRec.KickNilRow(f.validRowRecordPool.Get(), f.colAux)
+			if orderRec.RowNums() == 0 {
+				// the rest of the file record was null in every selected column: an empty record must not be
+				// handed upstream (aggregateCursor takes it for "the current window continues")
+				f.validRowRecordPool.PutRecordInCircularPool()
+				continue
+			}
 			return &DataBlockInfo{sInfo: sInfo, record: orderRec, sid: sid, index: idx, tagSetIndex: i}, nil
 		}
 		m := f.loc.GetChunkMeta()
